@@ -248,6 +248,17 @@ func init() {
 		r := B.Fresh("bytes.hasprefix", SBool)
 		k := B.BoundVar("k", SBV(64))
 		ba, pa := Select(p.bytesCell(st), b.Ref), Select(p.bytesCell(st), pre.Ref)
+		// literal prefix: expand bytewise (explicit reads make counterexamples replayable)
+		if pre.Len.Op == "gs.len" && len(pre.Len.Args) == 1 {
+			if lit, ok := strLitOf[pre.Len.Args[0].id]; ok && len(lit) <= 64 && pre.Off.IsConst() && pre.Off.ConstVal().Sign() == 0 {
+				var cs []*Term
+				for i := 0; i < len(lit); i++ {
+					cs = append(cs, Eq(Select(ba, BVAdd(b.Off, BVInt(int64(i), 64))), BVInt(int64(lit[i]), 8)))
+				}
+				p.assume(st.Guard, Eq(r, And(append([]*Term{BVSle(BVInt(int64(len(lit)), 64), b.Len)}, cs...)...)))
+				return Scalar{r}
+			}
+		}
 		same := Forall([]*Term{k}, Implies(And(BVSle(BVInt(0, 64), k), BVSlt(k, pre.Len)), Eq(Select(ba, BVAdd(b.Off, k)), Select(pa, BVAdd(pre.Off, k)))))
 		p.assume(st.Guard, Eq(r, And(BVSle(pre.Len, b.Len), same)))
 		return Scalar{r}
